@@ -32,13 +32,104 @@ def slice (s : CurState) (n : Nat) : List Bool := (s.input.drop s.pos).take n
 
 theorem suffix2 {α} (a b : α) (t : List α) : t <:+ a :: b :: t := ⟨[a, b], rfl⟩
 
+/-! ### the reads in normal form: the move after a successful peek cannot fail -/
+
+theorem peek_fit {s : CurState} {n : Nat} {bs} (h : peek s n = .ok bs) : s.pos + n ≤ s.input.length := by
+  unfold peek at h
+  split at h
+  · simp at h
+  · split at h
+    · assumption
+    · simp at h
+
+theorem moveAbs_fit (s : CurState) (n : Nat) (h : s.pos + n ≤ s.input.length) :
+    moveAbs s (s.base + s.pos + n) = ({ s with pos := s.pos + n }, .ok ()) := by
+  unfold moveAbs moveThen
+  rw [if_pos ⟨by omega, by omega⟩]
+  congr 2
+  omega
+
+/-- `readWith`: once the bits are there and convert, the only thing that can still go wrong is the push -/
+theorem readWith_eq (s : CurState) (n : Nat) (conv : List Bool → Outcome Cell) :
+    readWith s n conv =
+      lift s (peek s n) fun bs => lift s (conv bs) fun c =>
+        if full s then (s, .err (limErr s)) else ({ s with pos := s.pos + n, ds := c :: s.ds }, .ok ()) := by
+  unfold readWith
+  cases hp : peek s n with
+  | ok bs =>
+    simp only [lift]
+    cases conv bs with
+    | ok c =>
+      simp only [pushThen]
+      split
+      · rfl
+      · exact moveAbs_fit { s with ds := c :: s.ds } n (peek_fit hp)
+    | err e => rfl
+    | panic p => rfl
+  | err e => rfl
+  | panic p => rfl
+
+theorem scanNul_le : ∀ (f : Nat) (bs : List Bool), scanNul f bs ≤ bs.length
+  | 0, _ => by simp [scanNul]
+  | f+1, bs => by
+    unfold scanNul
+    split
+    · omega
+    · split
+      · omega
+      · have := scanNul_le f (bs.drop 8)
+        simp only [List.length_drop] at this
+        omega
+
+/-- `nulbytestr` / `cstr` likewise -/
+theorem nulRead_eq (s : CurState) (mk : List Bool → Cell) :
+    nulRead s mk =
+      lift s (rest s) fun r =>
+        if r.length % 8 ≠ 0 then (s, .err .toBytestrError)
+        else if full s then (s, .err (limErr s))
+        else ({ s with pos := s.pos + scanNul r.length r, ds := mk (r.take (scanNul r.length r)) :: s.ds }, .ok ()) := by
+  unfold nulRead
+  cases hr : rest s with
+  | ok r =>
+    simp only [lift]
+    split
+    · rfl
+    · simp only [pushThen]
+      split
+      · rfl
+      · apply moveAbs_fit { s with ds := _ :: s.ds }
+        have hr' : r = s.input.drop s.pos ∧ s.pos ≤ s.input.length := by
+          unfold rest at hr
+          split at hr
+          · simp at hr; exact ⟨hr.symm, by assumption⟩
+          · simp at hr
+        have := scanNul_le r.length r
+        rw [hr'.1] at this
+        simp only [List.length_drop] at this
+        rw [hr'.1]
+        simp only [List.length_drop]
+        show s.pos + _ ≤ _
+        omega
+  | err e => rfl
+  | panic p => rfl
+
+theorem rest_fit {s : CurState} {r : List Bool} (h : rest s = .ok r) : s.pos + scanNul r.length r ≤ s.input.length := by
+  unfold rest at h
+  split at h
+  · simp at h
+    subst h
+    have := scanNul_le (s.input.drop s.pos).length (s.input.drop s.pos)
+    simp only [List.length_drop] at this ⊢
+    omega
+  · simp at h
+
 /-! ### failure leaves everything but the word's own arguments alone -/
 
 theorem fail_atomic_aux (s : CurState) (op : POp) (s' : CurState) (r : Outcome Unit)
     (h : step s op = (s', r)) (hr : r ≠ .ok ()) :
     Same s s' ∧ s'.ds <:+ s.ds ∧ s.ds.length ≤ s'.ds.length + op.arity ∧ s'.bigEndian = s.bigEndian := by
   cases op <;>
-  simp only [step, popUsize, popBitstr, popCell, lift, readWith, nulRead, moveAbs, moveThen, pushC, packIntBo,
+  simp only [step, popUsize, popBitstr, popCell, lift, readWith_eq, nulRead_eq, moveAbs, moveThen, pushThen, pushC, packIntBo,
     packFloatBo] at h <;>
   (repeat' split at h) <;>
   simp_all [Same, POp.arity, suffix2] <;>
@@ -50,13 +141,23 @@ theorem inv_step_aux (s : CurState) (op : POp) (s' : CurState) (r : Outcome Unit
     (hi : Inv s) (h : step s op = (s', r)) : Inv s' := by
   obtain ⟨hp, hst⟩ := hi
   cases op <;>
-  simp only [step, popUsize, popBitstr, popCell, lift, readWith, nulRead, moveAbs, moveThen, pushC, packIntBo,
+  simp only [step, popUsize, popBitstr, popCell, lift, readWith_eq, nulRead_eq, moveAbs, moveThen, pushThen, pushC, packIntBo,
     packFloatBo] at h <;>
   (repeat' split at h) <;>
   simp_all [Inv] <;>
   (try (obtain ⟨rfl, rfl⟩ := h)) <;>
   (try simp_all) <;>
-  (try omega)
+  (first | omega | exact peek_fit (by assumption) | exact rest_fit (by assumption) | skip)
+
+/-! ### the byte order is a setting of the interpreter: only `big` and `little` change it -/
+
+theorem byteorder_step (s : CurState) (op : POp) (h1 : op ≠ .big) (h2 : op ≠ .little) :
+    (step s op).1.bigEndian = s.bigEndian := by
+  cases op <;>
+  simp only [step, popUsize, popBitstr, popCell, lift, readWith_eq, nulRead_eq, moveAbs, moveThen, pushThen, pushC, packIntBo,
+    packFloatBo] <;>
+  (repeat' split) <;>
+  simp_all
 
 /-! ### what a word may do to the stash: nothing, push one frame, pop one frame -/
 
@@ -66,7 +167,7 @@ theorem stash_step (s : CurState) (op : POp) :
     (∃ f, s.stash = f :: (step s op).1.stash ∧ (step s op).2 = .ok () ∧
       (step s op).1.input = f.bits ∧ (step s op).1.base = f.base ∧ (step s op).1.pos = f.pos) := by
   cases op <;>
-  simp only [step, popUsize, popBitstr, popCell, lift, readWith, nulRead, moveAbs, moveThen, pushC, packIntBo,
+  simp only [step, popUsize, popBitstr, popCell, lift, readWith_eq, nulRead_eq, moveAbs, moveThen, pushThen, pushC, packIntBo,
     packFloatBo] <;>
   (repeat' split) <;>
   simp_all
@@ -154,6 +255,15 @@ theorem popBitstr_ok {s : CurState} {k s'} (h : popBitstr s k = (s', .ok ())) :
   obtain ⟨n, hn, h⟩ := lift_ok h
   exact ⟨c, t, n, hd, hn, h⟩
 
+theorem pushC_ok {s : CurState} {c : Cell} {s'} (h : pushC s c = (s', .ok ())) :
+    s' = { s with ds := c :: s.ds } ∧ full s = false := by
+  unfold pushC at h
+  split at h
+  · simp at h
+  · rename_i hf
+    simp only [Prod.mk.injEq, and_true] at h
+    exact ⟨h.symm, by simpa using hf⟩
+
 theorem moveThen_ok {s : CurState} {abs k s'} (h : moveThen s abs k = (s', .ok ())) :
     s.base ≤ abs ∧ abs ≤ s.base + s.input.length ∧ k { s with pos := abs - s.base } = (s', .ok ()) := by
   unfold moveThen at h
@@ -164,15 +274,22 @@ theorem moveThen_ok {s : CurState} {abs k s'} (h : moveThen s abs k = (s', .ok (
 theorem readWith_ok {s : CurState} {n conv s'} (h : readWith s n conv = (s', .ok ())) :
     s.pos + n ≤ s.input.length ∧ ∃ c, conv (slice s n) = .ok c ∧
       s' = { s with pos := s.pos + n, ds := c :: s.ds } := by
-  unfold readWith at h
+  rw [readWith_eq] at h
   obtain ⟨bs, hb, h⟩ := lift_ok h
   obtain ⟨hfit, rfl⟩ := peek_ok hb
   obtain ⟨c, hc, h⟩ := lift_ok h
-  obtain ⟨_, _, h⟩ := moveThen_ok h
-  simp [pushC] at h
-  refine ⟨hfit, c, hc, ?_⟩
-  rw [← h]
-  congr 1
-  omega
+  split at h
+  · simp at h
+  · simp only [Prod.mk.injEq, and_true] at h
+    exact ⟨hfit, c, hc, h.symm⟩
+
+/-- a read that succeeded found room on the stack -/
+theorem readWith_ok_room {s : CurState} {n conv s'} (h : readWith s n conv = (s', .ok ())) : full s = false := by
+  rw [readWith_eq] at h
+  obtain ⟨bs, hb, h⟩ := lift_ok h
+  obtain ⟨c, hc, h⟩ := lift_ok h
+  split at h
+  · simp at h
+  · rename_i hf; simpa using hf
 
 end Xeh.Cur
